@@ -344,7 +344,7 @@ def contract_ob(oid, function, props, case_fn, clause, kind='post', deciding=Tru
     return Obligation(oid, kind, function, check, props, deciding=deciding, clause=clause)
 
 
-def random_refute(case, facts, lhs, rhs, tries=300, seed=0, maxdim=3):
+def random_refute(case, facts, lhs, rhs, tries=1500, seed=0, maxdim=3):
     """Concrete search for an instance on which the code term and the spec term differ while all
     facts hold.  Returns a witness dict (dims, arrays, scalars) or None."""
     import random
@@ -361,7 +361,7 @@ def random_refute(case, facts, lhs, rhs, tries=300, seed=0, maxdim=3):
     vals_r = [Fr(0), Fr(1), Fr(-1), Fr(1, 2), Fr(-3, 2), Fr(2), Fr(3), Fr(-2), Fr(5, 4), Fr(7, 10)]
     for _ in range(tries):
         env = {}
-        for v_ in fvs:
+        for v_ in sorted(fvs, key=lambda u_: u_.args[0]):       # deterministic order (set iteration depends on the hash seed)
             name = v_.args[0]
             if v_.sort == 'I':
                 env[name] = rnd.randint(0, maxdim)
@@ -370,7 +370,7 @@ def random_refute(case, facts, lhs, rhs, tries=300, seed=0, maxdim=3):
             else:
                 env[name] = rnd.random() < 0.5
         store = {}
-        for an, (ar, so) in arrays.items():
+        for an, (ar, so) in sorted(arrays.items()):
             def getter(*idx, an=an, so=so):
                 key = (an,) + tuple(int(i) for i in idx)
                 if key not in store:
